@@ -63,6 +63,7 @@ func runC08(c *core.Ctx) {
 	checkLibraryPreconditions2(c, ifuncs)
 	checkBackendDeclNil(c, ifuncs)
 	checkConstIndex(c, ifuncs)
+	checkCallTreeKinds(c)
 	// ---- x[len(x)-k]
 	if os.Getenv("FV_LIST_SLICES") != "" {
 		listRuntimeSlices(c, ifuncs)
